@@ -23,6 +23,7 @@ import traceback
 VERIF = os.path.dirname(os.path.dirname(os.path.abspath(__file__)))
 NWORK = int(os.environ.get("VERIF_JOBS", "16"))
 COLLECT = bool(os.environ.get("VERIF_COLLECT"))
+SHRINK_CALLS = int(os.environ.get("VERIF_SHRINK_CALLS", "80"))
 
 
 # --------------------------------------------------------------------------- subprocess helper
@@ -247,6 +248,11 @@ def _hyp(src, ctx, st, n, hseed):
     @hseed_dec(hseed)
     @given(src.strategy(ctx))
     def t(case):
+        if last:
+            # bound the cost of shrinking: after SHRINK_CALLS evaluations candidates are declined unevaluated
+            last["calls"] = last.get("calls", 0) + 1
+            if last["calls"] > SHRINK_CALLS:
+                return
         res = _filter_known(src.check(case, ctx), ctx, case, src.name)
         st.add(res, src)
         if res.fail is not None:
